@@ -319,6 +319,12 @@ func (ck *Checker) resolveTypeAST(ex ast.Expr, pkg *ssa.Package) (types.Type, er
 		if n.Name == "real" {
 			return types.Typ[types.Float64], nil
 		}
+		if n.Name == "set" {
+			return setType, nil
+		}
+		if n.Name == "intmap" {
+			return intmapType, nil
+		}
 		if o := types.Universe.Lookup(n.Name); o != nil {
 			if tn, ok := o.(*types.TypeName); ok {
 				return tn.Type(), nil
@@ -384,6 +390,8 @@ func (ck *Checker) resolveTypeAST(ex ast.Expr, pkg *ssa.Package) (types.Type, er
 		return types.NewMap(k, v), nil
 	case *ast.InterfaceType:
 		return types.NewInterfaceType(nil, nil), nil
+	case *ast.FuncType:
+		return types.NewSignatureType(nil, nil, nil, nil, nil, false), nil
 	case *ast.ParenExpr:
 		return ck.resolveTypeAST(n.X, pkg)
 	}
